@@ -10,6 +10,7 @@ var (
 	onGracefullyTerminate = &OnTerminate{Gracefully: true}
 	onLaunch              = new(OnLaunch)
 	onRestart             = new(onRestartMessage)
+	onResume              = new(onResumeMessage)
 	onRestarting          = new(OnRestarting)
 	onRestarted           = new(OnRestarted)
 	onSuspendMailbox      = new(onSuspendMailboxMessage)
@@ -21,6 +22,7 @@ type (
 	onSuspendMailboxMessage int8
 	onResumeMailboxMessage  int8
 	onRestartMessage        int8
+	onResumeMessage         int8
 	onSchedulerFunc         func()
 )
 
